@@ -25,7 +25,10 @@ LoadOK(cfg, ref, post) ==
     \* iteration order decides), but it is one of the members the text gives (per exact key: the last one)
     LET keq(a, b) == IF cfg.sorted THEN Eqv(cfg.cmp, a, b) ELSE a = b IN
     /\ \A i, j \in DOMAIN post : keq(post[i][1], post[j][1]) => i = j
-    /\ Members(post) \subseteq Graph(ref)
+    \* every member of the result has one of the names of the text as key and the value the text gives to that name or
+    \* to a name the comparator identifies with it (which key object and which of those values survive is free)
+    /\ \A i \in DOMAIN post : /\ post[i][1] \in RKeys(ref)
+                              /\ \E p \in Graph(ref) : keq(post[i][1], p[1]) /\ post[i][2] = p[2]
     /\ \A k \in RKeys(ref) : cfg.bidi \/ \E i \in DOMAIN post : keq(post[i][1], k)
     /\ (cfg.bidi =>
           \* any outcome of Putting the members of the decoded map in some order:
